@@ -33,6 +33,10 @@ fn kind_id(k: Syntax) -> u32 {
     h.finish() as u32
 }
 
+fn as_len<T: TryInto<usize>>(x: T) -> usize {
+    x.try_into().ok().unwrap_or(usize::MAX)
+}
+
 pub fn lex(s: &str) -> Result<Vec<(Syntax, usize)>, String> {
     let mut out = Vec::new();
     let mut pos = 0usize;
@@ -47,11 +51,14 @@ pub fn lex(s: &str) -> Result<Vec<(Syntax, usize)>, String> {
             ));
         }
 
-        if t.len == 0 {
+        // (whatever integer type the token length has: the harness must keep compiling when it is narrowed)
+        let tlen = as_len(t.len);
+
+        if tlen == 0 {
             return Err(format!("empty token {:?} at byte {}", t.kind, pos));
         }
 
-        pos = match pos.checked_add(t.len) {
+        pos = match pos.checked_add(tlen) {
             Some(p) => p,
             None => return Err("token length overflow".into()),
         };
@@ -72,7 +79,7 @@ pub fn lex(s: &str) -> Result<Vec<(Syntax, usize)>, String> {
             ));
         }
 
-        out.push((t.kind, t.len));
+        out.push((t.kind, tlen));
     }
 
     if pos != s.len() {
